@@ -107,7 +107,8 @@ func (s *cliScen) sched() {
 }
 
 func (s *cliScen) spec(notify bool) cspec {
-	sp := cspec{method: pick(s.g, []string{"m", "m", "echo", "rpc.x"}), notify: notify}
+	// mostly plain method names, some that need escaping on the wire
+	sp := cspec{method: pick(s.g, []string{"m", "m", "echo", "rpc.x", "m", "m", "echo", "m\x01", "b\a\v", "d\x7f", "q\"\\", "<&>", "t\U000e0001", "l\u2028"}), notify: notify}
 	switch s.g.intn(6) {
 	case 0:
 		sp.params = ""
